@@ -1666,6 +1666,64 @@ fn section_certs(ctx: &mut Ctx, fx: &Fx, rng: &mut ChaCha8Rng) {
             ctx.oracle("public_and_secret_form_judged_alike", "SignedSecretKey(with public subkey)::from_bytes vs SignedPublicKey::from_bytes (+ verify_bindings)", &input_m, mixed == pubv, &format!("{mixed}/{pubv}; tsk={}", hx(&mixed_bytes)));
         }
     }
+    // ---- the v6 "octet count of the public key material" of the primary / subkey packet, edited the
+    //      same way in the secret and in the public form of one certificate (oracles only)
+    {
+        let tsk = &fx.cert6;
+        let sec_bytes = ser(tsk);
+        let pub_bytes = ser(&SignedPublicKey::from(tsk.clone()));
+        // offsets of the key packets (tags 5/7 resp. 6/14) and of their count fields
+        let key_fields = |bytes: &[u8]| -> Vec<(usize, u32)> {
+            let mut out = Vec::new();
+            let mut off = 0usize;
+            while off + 2 <= bytes.len() {
+                let tag = bytes[off] & 0x3f;
+                let (hdr, len) = if bytes[off + 1] < 192 {
+                    (2usize, bytes[off + 1] as usize)
+                } else if bytes[off + 1] < 224 {
+                    (3, ((bytes[off + 1] as usize - 192) << 8) + bytes[off + 2] as usize + 192)
+                } else if bytes[off + 1] == 255 {
+                    (6, u32::from_be_bytes([bytes[off + 2], bytes[off + 3], bytes[off + 4], bytes[off + 5]]) as usize)
+                } else {
+                    break;
+                };
+                if [5u8, 6, 7, 14].contains(&tag) && len >= 10 {
+                    let at = off + hdr + 6;
+                    out.push((at, u32::from_be_bytes([bytes[at], bytes[at + 1], bytes[at + 2], bytes[at + 3]])));
+                }
+                off += hdr + len;
+            }
+            out
+        };
+        let fs = key_fields(&sec_bytes);
+        let fp = key_fields(&pub_bytes);
+        if fs.len() == fp.len() && !fs.is_empty() {
+            for ki in 0..fs.len() {
+                for delta in [1i64, 8, 968, -1, i64::MIN] {
+                    let edit = |bytes: &[u8], f: (usize, u32)| -> Vec<u8> {
+                        let v = if delta == i64::MIN { 0u32 } else { (f.1 as i64 + delta) as u32 };
+                        let mut b = bytes.to_vec();
+                        b[f.0..f.0 + 4].copy_from_slice(&v.to_be_bytes());
+                        b
+                    };
+                    let sb = edit(&sec_bytes, fs[ki]);
+                    let pb = edit(&pub_bytes, fp[ki]);
+                    let sec = verdict(guarded(|| SignedSecretKey::from_bytes(&sb[..])), |k| k.verify_bindings());
+                    let pubv = verdict(guarded(|| SignedPublicKey::from_bytes(&pb[..])), |k| k.verify_bindings());
+                    ctx.stat(&format!("cert_v6_count:sec={sec}:pub={pubv}"));
+                    ctx.oracle(
+                        "public_and_secret_form_judged_alike",
+                        "Signed{Secret,Public}Key::from_bytes + verify_bindings (v6 octet count of the public key material edited)",
+                        &format!("v6 certificate, key packet #{ki}, count {} -> {}", fs[ki].1, if delta == i64::MIN { "0".to_string() } else { format!("{:+}", delta) }),
+                        sec == pubv,
+                        &format!("secret form: {sec}, public form: {pubv}; tsk={} tpk={}", hx(&sb), hx(&pb)),
+                    );
+                }
+            }
+        } else {
+            ctx.note("v6 certificate: key packets not located");
+        }
+    }
     // v3 primary (tests/openpgp/pgp263-test.pub.asc) alone and with a subkey appended
     let repo = std::env::var("VERIF_REPO").unwrap_or_else(|_| "/repo".to_string());
     match std::fs::read_to_string(format!("{repo}/tests/openpgp/pgp263-test.pub.asc")) {
